@@ -32,7 +32,8 @@ ASSUMPTIONS = [
     'canonical spelling = native int/float resp. str; results compared after '
     'normalisation (Number(2) == 2 == 2.0)',
     'booleans as text arguments are compared case-insensitively with the '
-    'result for "TRUE"/"FALSE"; number->text only for integers',
+    'result for "TRUE"/"FALSE"; number->text for whole numbers (as int, '
+    'float, numpy float, negative zero)',
     'non-numeric text uses letters dateutil cannot read as a date (the '
     'library deliberately accepts date text as a number)',
     'array, expression (lazy) and variadic parameters are not spelled',
@@ -50,7 +51,8 @@ NUM_SPELL = ['np', 'Number', 'dectext', 'floattext', 'scitext', 'Text',
              # reference to a cell holding text / a boolean, as a blank cell
              'f:textlit', 'f:scilit', 'f:textcell', 'f:boolcell',
              'f:boollit', 'f:blankcell', 'f:nonnumeric']
-TEXT_SPELL = ['Text', 'int', 'Number', 'npint', 'bool', 'Boolean']
+TEXT_SPELL = ['Text', 'int', 'Number', 'npint', 'bool', 'Boolean', 'float',
+              'npfloat', 'negzero']
 SKIP = (FT.VOLATILE | FT.LAZY | FT.PANDAS_BROKEN | FT.ERROR_INSPECTORS
         | {'RANDBETWEEN'})
 DATE_SPELL = ['np', 'Number', 'dectext', 'floattext', 'Text', 'float']
@@ -212,6 +214,14 @@ def _spell_text(s, sp):
         return (xl.Number(int(s)) if digits else None), digits
     if sp == 'npint':
         return (_np().int64(int(s)) if digits else None), digits
+    if sp == 'float':
+        # the same whole number held as a float: its text form is the same
+        return (float(int(s)) if digits else None), digits and len(s) < 15
+    if sp == 'npfloat':
+        return (_np().float64(int(s)) if digits else None), \
+            digits and len(s) < 15
+    if sp == 'negzero':
+        return -0.0, s == '0'
     if sp == 'bool':
         return (s == 'TRUE'), s in ('TRUE', 'FALSE')
     if sp == 'Boolean':
